@@ -65,7 +65,7 @@ def write_tree(node):
 
 # ------------------------------------------------------------------ program generator
 FEATURES = ["bound_param", "kind_param", "init_ref", "dtype", "import", "args", "module", "function",
-            "modkind", "save_init", "call", "section"]
+            "modkind", "save_init", "call", "section", "iface", "iface_imp"]
 
 
 def gen_source(rng, k):
@@ -83,7 +83,7 @@ def gen_source(rng, k):
     feats = set(f for f in FEATURES if rng.random() < 0.45)
     if "save_init" in feats:
         feats.add("init_ref")
-    if "modkind" in feats or "function" in feats or "call" in feats:
+    if feats & {"modkind", "function", "call", "iface", "iface_imp"}:
         feats.add("module")
     decl, body, pre = [], [], []
     args = []
@@ -134,6 +134,8 @@ def gen_source(rng, k):
         body.append("call sub2(s)")
     if "function" in feats:
         body.append("t = f2(s)")
+    if "iface" in feats:
+        body.append("call gen(s)")
     body_lines = mf.stmts_to_fortran(stmts) + ["  " + b for b in body]
     rng.shuffle(body)
     head = "subroutine s%d(%s)" % (k, ", ".join(args))
@@ -143,11 +145,19 @@ def gen_source(rng, k):
     mod = ["module mod%d" % k]
     if "import" in feats and rng.random() < 0.5:
         mod.append("  use gext%d, only: gv" % k)
+    if "iface_imp" in feats:
+        mod.append("  use iext%d, only: ext_a, ext_b" % k)
     if "modkind" in feats:
         mod += ["  integer, parameter :: wp = 4", "  integer(kind=wp) :: g"]
+    if "iface" in feats:                                    # generic interface over module procedures
+        mod += ["  interface gen", "    module procedure :: sub2, sub3", "  end interface gen"]
+    if "iface_imp" in feats:                                # ... and over imported procedures
+        mod += ["  interface gen2", "    procedure ext_a, ext_b", "  end interface gen2"]
     mod.append("contains")
     mod += ["  " + x for x in rt]
-    if "call" in feats:
+    if "iface" in feats:
+        mod += ["  subroutine sub3(z)", "    real, intent(inout) :: z", "    z = z + 1.0", "  end subroutine sub3"]
+    if "call" in feats or "iface" in feats:
         mod += ["  subroutine sub2(y)", "    integer, intent(inout) :: y", "    integer :: loc",
                 "    loc = y", "    y = loc + 1", "  end subroutine sub2"]
     if "function" in feats:
@@ -219,6 +229,17 @@ def build_api_program(rng, k):
     helper.addchild(N.Assignment.create(N.Reference(loc), N.Reference(y)))
     helper.addchild(N.Assignment.create(N.Reference(y), _add(N.Reference(loc), _lit(1))))
     hsym = ct.new_symbol("HelperSub", symbol_type=S.RoutineSymbol)
+    helper2 = N.Routine.create("Helper_Two", S.SymbolTable(), [])
+    z = S.DataSymbol("zArg", S.REAL_TYPE, interface=S.ArgumentInterface(S.ArgumentInterface.Access.READWRITE))
+    helper2.symbol_table.add(z)
+    helper2.symbol_table.specify_argument_list([z])
+    helper2.addchild(N.Assignment.create(N.Reference(z), N.Literal("1.0", S.REAL_TYPE)))
+    h2sym = S.RoutineSymbol("Helper_Two")
+    if rng.random() < 0.5:
+        ct.add(h2sym)                                       # member declared before the interface (frontend order)
+    ct.add(S.GenericInterfaceSymbol("GenIface", [(hsym, True), (h2sym, True)]))
+    if h2sym.name.lower() not in ct._symbols:
+        ct.add(h2sym)                                       # ... or after it (the order rename_symbol leaves)
     main = N.Routine.create(rng.choice(["DoWork", "COMPUTE_All", "invoke_0_Kern"]), S.SymbolTable(), [])
     mt = main.symbol_table
     names = rng.sample(MIXED, 4)
@@ -245,6 +266,7 @@ def build_api_program(rng, k):
     main.addchild(N.Assignment.create(N.Reference(gcount), N.Reference(q)))
     cont.addchild(main)
     cont.addchild(helper)
+    cont.addchild(helper2)
     if rng.random() < 0.5:
         fc = N.FileContainer("file%d" % k)
         fc.addchild(cont)
@@ -281,7 +303,7 @@ NODE_CLASSES = {"FileContainer", "Container", "Routine", "Schedule", "Loop", "If
                 "Reference", "ArrayReference", "StructureReference", "ArrayOfStructuresReference",
                 "Member", "ArrayMember", "StructureMember", "ArrayOfStructuresMember", "Literal",
                 "BinaryOperation", "UnaryOperation", "Call", "IntrinsicCall", "Range", "Return"}
-TYPED = {"DataSymbol", "DataTypeSymbol", "RoutineSymbol", "IntrinsicSymbol"}
+TYPED = {"DataSymbol", "DataTypeSymbol", "RoutineSymbol", "IntrinsicSymbol", "GenericInterfaceSymbol"}
 UNTYPED = {"Symbol", "ContainerSymbol"}
 
 
@@ -471,7 +493,8 @@ class Ser:
                 intf = ("I", self.sym_id(s.interface.container_symbol))
             else:
                 intf = ("L", self.intf_obj(s.interface))
-            self.syms[self.sid[id(s)]] = (self.name_code(s.name), typed, sdt, init, intf)
+            mem = [self.sym_id(r.symbol) for r in s.routines] if isinstance(s, S.GenericInterfaceSymbol) else []
+            self.syms[self.sid[id(s)]] = (self.name_code(s.name), typed, sdt, init, intf, mem)
 
 
 # model-side helpers on serialised structures
@@ -500,7 +523,7 @@ def obj_syms(ser, o):
 
 
 def attr_syms(ser, s):
-    _, _, sdt, init, intf = ser.syms[s]
+    _, _, sdt, init, intf, _ = ser.syms[s]
     out = obj_syms(ser, sdt)
     if init is not None:
         out += t_slots(init)
@@ -517,9 +540,9 @@ def closure(ser, t):
         if s in ss:
             continue
         ss.add(s)
-        _, _, sdt, init, intf = ser.syms[s]
+        _, _, sdt, init, intf, mem = ser.syms[s]
         oo.add(sdt)
-        more = obj_syms(ser, sdt)
+        more = obj_syms(ser, sdt) + list(mem)
         if init is not None:
             more += t_slots(init)
         if intf[0] == "L":
@@ -650,7 +673,8 @@ class Obs:
                 if isinstance(so.interface, S.ImportInterface):
                     raise CopyBroken("import interface lost")
                 intf = ("L", self.obj(so.interface, sc.interface, True))
-            self.csyms[cid] = (ser.name_code(sc.name), typed, sdt, init, intf)
+            mem = [self.sym(r.symbol) for r in sc.routines] if isinstance(sc, S.GenericInterfaceSymbol) else []
+            self.csyms[cid] = (ser.name_code(sc.name), typed, sdt, init, intf, mem)
 
 
 # ------------------------------------------------------------------ Coq printing
@@ -669,10 +693,11 @@ def cq_node(t):
 
 
 def cq_sym(r):
-    name, typed, sdt, init, intf = r
-    return "(Build_sym %s %s %s %s %s)" % (
+    name, typed, sdt, init, intf, mem = r
+    return "(Build_sym %s %s %s %s %s %s)" % (
         H(name), "true" if typed else "false", H(sdt), "None" if init is None else "(Some %s)" % cq_node(init),
-        "(ILocal %s)" % H(intf[1]) if intf[0] == "L" else "(IImport %s)" % H(intf[1]))
+        "(ILocal %s)" % H(intf[1]) if intf[0] == "L" else "(IImport %s)" % H(intf[1]),
+        core.coq_list(H(m) for m in mem))
 
 
 def cq_obj(o):
@@ -716,7 +741,7 @@ def why_not_equal(o, c):
     return "copy_equal/%s-not-equal" % k
 
 
-def direct_checks(o, c):
+def direct_checks(o, c, ser):
     """-> list of (key, detail) property failures that need no edit"""
     N, S = P()
     out = []
@@ -771,6 +796,22 @@ def direct_checks(o, c):
             la, lb = ta.argument_list, tb.argument_list
             if [x.name for x in la] != [x.name for x in lb] or any(m.get(id(x)) is not y for x, y in zip(la, lb)):
                 out.append(("deep_copy/argument-list-not-own", type(a).__name__))
+    # general identity oracle: no symbol object declared in the ORIGINAL's copied scopes is reachable from the
+    # copy's nodes or from the attributes of the copy's symbols (datatypes, initial values, interfaces,
+    # GenericInterfaceSymbol.routines, import containers, return symbols) — the classes of the known findings
+    # (KEY_OF_KIND / structure components) are the only ones excused here; they are demonstrated by edits
+    orig_own = {}
+    for a in on:
+        if isinstance(a, N.ScopingNode):
+            for x in a.symbol_table.symbols:
+                orig_own[id(x)] = x
+    for ident, kinds in reach_paths(c, ser).items():
+        if ident in orig_own:
+            for k in sorted(kinds):
+                if k in KEY_OF_KIND or k.startswith("structure-component:"):
+                    continue
+                out.append(("copy/%s-is-a-symbol-of-the-original" % k,
+                            "the copy reaches the original's symbol '%s' as %s" % (orig_own[ident].name, k)))
     # references inside the copy
     for a, b in zip(on, cn):
         for what, sa, sb in ((("reference", a.symbol, b.symbol),) if isinstance(a, N.Reference) else ()) + \
@@ -831,6 +872,9 @@ def reach_paths(root, ser):
                             add(obj, kind)
                 if isinstance(s, S.DataSymbol) and s.initial_value is not None:
                     expr(s.initial_value, "initial-value")
+                if isinstance(s, S.GenericInterfaceSymbol):
+                    for r in s.routines:
+                        add(r.symbol, "interface-member")
     return paths
 
 
@@ -873,27 +917,49 @@ def own_scopes(a):
     return a.walk(N.ScopingNode)
 
 
-def random_edit(rng, a, allow_inplace, counter):
+def random_edit(rng, a, allow_inplace, counter, only=None):
     """apply one random edit to tree `a` (its nodes, the symbols of its own scopes).  Returns Edit or None
-    (nothing applicable / rejected by PSyclone)."""
+    (nothing applicable / rejected by PSyclone).  `only` restricts the kinds (edits made BEFORE a copy)."""
     N, S = P()
     scopes = own_scopes(a)
     own_syms = [(sc, s) for sc in scopes for s in sc.symbol_table.symbols]
     data_syms = [(sc, s) for sc, s in own_syms if type(s) is S.DataSymbol]
     kinds = ["rename", "rename", "new_symbol", "replace_expr", "detach", "set_datatype", "set_init", "retarget",
              "shadow_symbol"]
+    kinds += ["remove_add"]
     if allow_inplace:
         kinds += ["inplace_interface", "inplace_struct", "inplace_bound"]
+    if only is not None:
+        kinds = [k for k in kinds if k in only]
     kind = rng.choice(kinds)
     counter[0] += 1
     uid = counter[0]
     try:
         if kind == "rename" and own_syms:
             sc, s = rng.choice(own_syms)
+            members = [(c2, r.symbol) for c2, g in own_syms if isinstance(g, S.GenericInterfaceSymbol)
+                       for r in g.routines if r.symbol in c2.symbol_table.symbols]
+            if members and rng.random() < 0.4:              # a specific routine of a generic interface
+                sc, s = rng.choice(members)
             new = rng.choice(["%s_r%d", "%s_R%d", "X%s%d"]) % (s.name[:6], uid)
             old = s.name
-            sc.symbol_table.rename_symbol(s, new)
+            sc.symbol_table.rename_symbol(s, new)           # (re-inserts the symbol at the END of the table)
+            if isinstance(s, S.RoutineSymbol):              # keep the Routine node of that name in step
+                for r in a.walk(N.Routine):
+                    if r.name.lower() == old.lower() and r is not sc:
+                        try:
+                            r.name = new
+                        except Exception:                       # noqa
+                            pass
             return Edit(kind, "rename_symbol(%s -> %s) in %s" % (old, new, type(sc).__name__), [("sym", s)])
+        if kind == "remove_add":                            # remove + re-add: moves the symbol to the end
+            cands = [(c2, x) for c2, x in own_syms if isinstance(x, (S.RoutineSymbol, S.ContainerSymbol))
+                     and not isinstance(x, S.GenericInterfaceSymbol)]
+            if cands:
+                sc, x = rng.choice(cands)
+                sc.symbol_table.remove(x)
+                sc.symbol_table.add(x)
+                return Edit(kind, "remove+add %s in %s" % (x.name, type(sc).__name__), [("sym", x)])
         if kind in ("new_symbol", "shadow_symbol") and scopes:
             sc = rng.choice(scopes)
             if kind == "shadow_symbol":
@@ -946,9 +1012,12 @@ def random_edit(rng, a, allow_inplace, counter):
             return Edit(kind, "%s.initial_value = %d" % (s.name, uid), [("sym", s)])
         if kind == "retarget":
             refs = [x for x in a.walk(N.Reference) if type(x) is N.Reference and not isinstance(x.parent, N.Call)]
-            targets = [t for _, t in data_syms if not t.is_array]
-            if refs and targets:
+            targets = []
+            if refs:
                 x = rng.choice(refs)
+                anc = _ancestors(x)                         # only symbols visible from the reference (well-scoped)
+                targets = [t for sc, t in data_syms if not t.is_array and sc in anc]
+            if refs and targets:
                 t = rng.choice(targets)
                 x.symbol = t
                 return Edit(kind, "Reference.symbol = %s" % t.name, [("node", x)])
@@ -1144,7 +1213,7 @@ def run_case(ctx, rng, src, feats, prog_idx, tree, ser, n, results, counter):
         results["cases"].append(case)
         results["meta"].append({"prog": prog_idx, "kind": kname, "abs_position": pos, "source": src})
     # --- the property itself
-    fails = direct_checks(n, c)
+    fails = direct_checks(n, c, ser)
     # the writer is context dependent for expressions (parentheses, `call` for a Call without a Schedule
     # parent): the text of a detached copy is compared with the in-tree text for statements / scopes only
     stmt_like = isinstance(n, (N.Routine, N.Container, N.Schedule, N.Loop, N.IfBlock, N.Assignment)) or \
@@ -1203,6 +1272,20 @@ def run_case(ctx, rng, src, feats, prog_idx, tree, ser, n, results, counter):
 
 
 _CACHE = {}
+PRE_KINDS = ("rename", "new_symbol", "shadow_symbol", "remove_add", "detach", "retarget")
+
+
+def pre_edits(rng, tree):
+    """edits made BEFORE any copy is taken (what transformations do): they leave symbol tables in orders the
+    frontend never produces (rename_symbol / remove+add re-insert at the end, new symbols interleave)"""
+    done = []
+    counter = [50000]
+    for _ in range(rng.choice([0, 1, 2, 3, 5])):
+        e = random_edit(rng, tree, False, counter, only=PRE_KINDS)
+        if e is not None and e.kind != "rejected":
+            done.append(e.desc)
+    return done
+
 
 
 def _reread(src, decor_seed):
@@ -1215,7 +1298,10 @@ def _reread(src, decor_seed):
     from psyclone.psyir.frontend.fortran import FortranReader
     if src.startswith("!api:"):
         _, seed, k = src.split("\n")[0].split(":")
-        return build_api_program(random.Random(int(seed)), int(k))
+        r = random.Random(int(seed))
+        t = build_api_program(r, int(k))
+        pre_edits(r, t)
+        return t
     rd = FortranReader()
     if src not in _CACHE:
         if len(_CACHE) > 8:
@@ -1229,6 +1315,7 @@ def _reread(src, decor_seed):
     decorate(r, t)
     if decor_seed % 2:
         api_decorate(r, t)
+    pre_edits(r, t)
     return t
 
 
@@ -1241,7 +1328,10 @@ def run(ctx):
         "function) read by the real frontend, decorated with shadowing symbols in inner scopes and (half of them) "
         "with mixed-case temporaries / loop counters / tags / case-only clashes created through the PSyIR API; "
         "every third program is a module built entirely through the API (mixed / upper-case data, routine and "
-        "container symbols); every Routine / "
+        "container symbols, a generic interface whose member may be declared after it); reader modules may hold "
+        "generic interfaces over module procedures and over imported procedures; every tree then receives 0-5 "
+        "random edits BEFORE any copy (rename_symbol, remove+add, new/shadow symbol, detach, re-target: table "
+        "orders the frontend never produces); every Routine / "
         "Container plus sampled Loop/IfBlock/Schedule/Assignment/expression subtrees is copied with the real copy(); "
         "edit sequences (rename_symbol, new_symbol, shadow add, replace expression, detach, set datatype, set initial "
         "value, re-target reference; 25% of sequences also in-place interface/StructureType/bound mutation) on one "
@@ -1337,14 +1427,16 @@ def run(ctx):
                {"property": "C15", "source": src, "subtree": kname, "abs_position": pos, "detail": detail,
                 "decorate_seed": dseed,
                 "replay": "tree = props/C15/check.py:_reread(source, decorate_seed)  (reader + decorate + api_decorate, or "
-                          "build_api_program for a `!api:` source); n = tree.walk(Node)[abs_position]; c = n.copy(); "
+                          "build_api_program for a `!api:` source; then pre_edits = random edits BEFORE the copy); "
+                          "n = tree.walk(Node)[abs_position]; c = n.copy(); "
                           "evaluate ==, node identities, and `ref.symbol is <copy's table entry of that name>`"})
     for src, kname, pos, why in results["broken"]:
         concrete += 1
         report("Node.copy/structure-differs:" + kname, why,
                {"property": "C15", "source": src, "subtree": kname, "abs_position": pos, "detail": why})
     how = ("tree = props/C15/check.py:_reread(source, decorate_seed) (reader + decorate + api_decorate, or "
-           "build_api_program for a `!api:` source), n = tree.walk(Node)[abs_position], c = n.copy(), apply "
+           "build_api_program for a `!api:` source; then pre_edits = random edits BEFORE the copy), "
+           "n = tree.walk(Node)[abs_position], c = n.copy(), apply "
            "`edits_before` then `edit` to the named side, compare FortranWriter text")
     for f in results["indep"]:
         concrete += 1
